@@ -21,7 +21,10 @@ package main
 //   reuse    <curve> a b                             -> bit  PairFixedQ twice with the SAME lines object gives the same value
 //                                                       (not generated for C05: known defect, belongs to C18)
 // err:size is answered only when ALL of Pair, PairingCheck, MillerLoop, PairFixedQ, PairingCheckFixedQ, MillerLoopFixedQ
-// return an error; a partial error pattern is rendered `err-mismatch:<bits>`.
+// (and, on bw6-761, MillerLoopDirect) return an error; a partial error pattern is rendered `err-mismatch:<bits>`
+// (bit order as listed, 1 = error). On bw6-761 bit1 of `variants` also demands FinalExponentiation(MillerLoopDirect(P,Q)) == V.
+// The generator enumerates the whole size lattice (nP,nQ) in {0..4}^2 (thorough: {0..6}^2) off the diagonal for every curve:
+// fewer points than lines, more points than lines, empty on either side, both empty - with generic and with infinite points.
 
 import (
 	"math/big"
@@ -104,6 +107,7 @@ func newPairing[G1, G2, GT, L any](
 	pairF func([]G1, []L) (GT, error), checkF func([]G1, []L) (bool, error),
 	millerF func([]G1, []L) (GT, error), pre func(G2) L,
 	ops gtOps[GT],
+	extraMiller func([]G1, []G2) (GT, error), // a further Miller-loop entry point of the package (bw6-761 MillerLoopDirect) or nil
 ) {
 	points := func(a, b []*big.Int) ([]G1, []G2) {
 		P := make([]G1, len(a))
@@ -140,8 +144,13 @@ func newPairing[G1, G2, GT, L any](
 		_, e4 := pairF(P, lines(Q))
 		_, e5 := checkF(P, lines(Q))
 		_, e6 := millerF(P, lines(Q))
+		errs := []error{e1, e2, e3, e4, e5, e6}
+		if extraMiller != nil {
+			_, e7 := extraMiller(P, Q)
+			errs = append(errs, e7)
+		}
 		all, any := true, false
-		for _, e := range []error{e1, e2, e3, e4, e5, e6} {
+		for _, e := range errs {
 			bits = append(bits, e != nil)
 			all = all && e != nil
 			any = any || e != nil
@@ -179,6 +188,14 @@ func newPairing[G1, G2, GT, L any](
 		// 1
 		ml, _ := miller(P, Q)
 		v1 := fe(&ml)
+		if extraMiller != nil {
+			// the additional Miller loop must reduce to the same value; folded into bit1
+			mld, _ := extraMiller(P, Q)
+			v1d := fe(&mld)
+			if !ops.eq(&v1d, &V) {
+				v1 = v1d
+			}
+		}
 		// 2, 3
 		v2 := ops.one()
 		mls := make([]GT, len(P))
@@ -276,7 +293,7 @@ func init() {
 			mul: func(a, b *bn254.GT) (z bn254.GT) { z.Mul(a, b); return },
 			exp: func(a bn254.GT, k *big.Int) (z bn254.GT) { z.Exp(a, k); return },
 			one: func() (z bn254.GT) { z.SetOne(); return },
-		})
+		}, nil)
 	newPairing(
 		"bls12-377", bls12377fr.Modulus(),
 		func(s *big.Int) (p bls12377.G1Affine) { p.ScalarMultiplicationBase(s); return },
@@ -288,7 +305,7 @@ func init() {
 			mul: func(a, b *bls12377.GT) (z bls12377.GT) { z.Mul(a, b); return },
 			exp: func(a bls12377.GT, k *big.Int) (z bls12377.GT) { z.Exp(a, k); return },
 			one: func() (z bls12377.GT) { z.SetOne(); return },
-		})
+		}, nil)
 	newPairing(
 		"bls12-381", bls12381fr.Modulus(),
 		func(s *big.Int) (p bls12381.G1Affine) { p.ScalarMultiplicationBase(s); return },
@@ -300,7 +317,7 @@ func init() {
 			mul: func(a, b *bls12381.GT) (z bls12381.GT) { z.Mul(a, b); return },
 			exp: func(a bls12381.GT, k *big.Int) (z bls12381.GT) { z.Exp(a, k); return },
 			one: func() (z bls12381.GT) { z.SetOne(); return },
-		})
+		}, nil)
 	newPairing(
 		"bls24-315", bls24315fr.Modulus(),
 		func(s *big.Int) (p bls24315.G1Affine) { p.ScalarMultiplicationBase(s); return },
@@ -312,7 +329,7 @@ func init() {
 			mul: func(a, b *bls24315.GT) (z bls24315.GT) { z.Mul(a, b); return },
 			exp: func(a bls24315.GT, k *big.Int) (z bls24315.GT) { z.Exp(a, k); return },
 			one: func() (z bls24315.GT) { z.SetOne(); return },
-		})
+		}, nil)
 	newPairing(
 		"bls24-317", bls24317fr.Modulus(),
 		func(s *big.Int) (p bls24317.G1Affine) { p.ScalarMultiplicationBase(s); return },
@@ -324,7 +341,7 @@ func init() {
 			mul: func(a, b *bls24317.GT) (z bls24317.GT) { z.Mul(a, b); return },
 			exp: func(a bls24317.GT, k *big.Int) (z bls24317.GT) { z.Exp(a, k); return },
 			one: func() (z bls24317.GT) { z.SetOne(); return },
-		})
+		}, nil)
 	newPairing(
 		"bw6-633", bw6633fr.Modulus(),
 		func(s *big.Int) (p bw6633.G1Affine) { p.ScalarMultiplicationBase(s); return },
@@ -336,7 +353,7 @@ func init() {
 			mul: func(a, b *bw6633.GT) (z bw6633.GT) { z.Mul(a, b); return },
 			exp: func(a bw6633.GT, k *big.Int) (z bw6633.GT) { z.Exp(a, k); return },
 			one: func() (z bw6633.GT) { z.SetOne(); return },
-		})
+		}, nil)
 	newPairing(
 		"bw6-761", bw6761fr.Modulus(),
 		func(s *big.Int) (p bw6761.G1Affine) { p.ScalarMultiplicationBase(s); return },
@@ -348,7 +365,7 @@ func init() {
 			mul: func(a, b *bw6761.GT) (z bw6761.GT) { z.Mul(a, b); return },
 			exp: func(a bw6761.GT, k *big.Int) (z bw6761.GT) { z.Exp(a, k); return },
 			one: func() (z bw6761.GT) { z.SetOne(); return },
-		})
+		}, bw6761.MillerLoopDirect)
 	executors["C05"] = execC05
 	generators["C05"] = genC05
 }
@@ -698,25 +715,53 @@ func genC05(g *gen) {
 		g.emit("C05 bilin %s %s 0", curve, sHex(c05Scalar(g, r)))
 		g.emit("C05 bilin %s 1 1", curve)
 		g.emit("C05 bilin %s -1 1", curve)
-		// size mismatches and k = 0
+		// size mismatches and k = 0: the full lattice off the diagonal, both directions, empty on either side
 		g.c05Line("variants", curve, nil, nil)
 		g.c05Line("check", curve, nil, nil)
 		g.c05Line("pair", curve, nil, nil)
-		for rep := 0; rep < g.budget(2, 6); rep++ {
-			nP, nQ := g.rng.intn(4), g.rng.intn(4)
-			if nP == nQ {
-				nQ++
+		maxN := g.budget(4, 6)
+		for nP := 0; nP <= maxN; nP++ {
+			for nQ := 0; nQ <= maxN; nQ++ {
+				if nP == nQ {
+					continue
+				}
+				// generic points; all points infinite; a shape that would have equal sizes after dropping infinite points
+				mode := g.rng.intn(3)
+				var as, bs []*big.Int
+				for i := 0; i < nP; i++ {
+					as = append(as, c05Scalar(g, r))
+				}
+				for i := 0; i < nQ; i++ {
+					bs = append(bs, c05Scalar(g, r))
+				}
+				switch mode {
+				case 1:
+					for i := range as {
+						as[i] = new(big.Int)
+					}
+					for i := range bs {
+						bs[i] = new(big.Int)
+					}
+				case 2:
+					long := as
+					if nQ > nP {
+						long = bs
+					}
+					d := nP - nQ
+					if d < 0 {
+						d = -d
+					}
+					for i := 0; i < d; i++ {
+						long[len(long)-1-i] = new(big.Int)
+					}
+				}
+				g.c05Line("variants", curve, as, bs)
+				if (nP+nQ)%2 == 1 {
+					g.c05Line("check", curve, as, bs)
+				} else {
+					g.c05Line("pair", curve, as, bs)
+				}
 			}
-			var as, bs []*big.Int
-			for i := 0; i < nP; i++ {
-				as = append(as, c05Scalar(g, r))
-			}
-			for i := 0; i < nQ; i++ {
-				bs = append(bs, c05Scalar(g, r))
-			}
-			g.c05Line("variants", curve, as, bs)
-			g.c05Line("check", curve, as, bs)
-			g.c05Line("pair", curve, as, bs)
 		}
 	}
 	// malformed stream
